@@ -5,10 +5,15 @@ spec:   spec/Steady.tla (actions Copy, FreezeExogenous, Run, Judge, Install, Rej
         abstracted to the class of its final two values of the search run: magnitudes
         {nL, ne, z, pe, pL} (near-zero threshold 1e-4) x drift {zero, small, rel_small, large} in units of
         the tolerance, plus - where both values are near zero and the drift is large - whether the next value
-        stays below the threshold.  Two AsFound constants: the signed relative test (repaired in /repo) and the
-        near-zero branch that accepts any drift inside the band.
-TLC:    exhaustive check of the bounded instances; every maximal behaviour (number of variables, excluded
-        set, outcome of the run, class of every variable) is emitted.
+        stays below the threshold.  Every series has a NAME (a sequence of characters) and the exclusion option
+        ParameterInitialSteadyStateExcludedVariables is part of the state: a set of names (of series, of their
+        lags, of nothing at all), including names that contain the names of other series (y_total / LAG_y_total
+        next to y / LAG_y); the loop skips exactly the series whose name is on the list (invariant
+        C15_JudgesExactlyNonExcluded).  Three AsFound constants: the signed relative test and the near-zero
+        branch that accepts any drift inside the band (both repaired in /repo), and exclusion by substring.
+TLC:    exhaustive check of the bounded instances (schemes: names of the variables, classes each may end in,
+        exclusion options); every maximal behaviour (names, option, outcome of the run, class of every
+        variable) is emitted.
 replay: for every behaviour a REAL equation system is generated that realises the classes at a seeded
         search horizon T (ParameterInitialSteadyStateMaxTime) and tolerance tol
         (ParameterInitialSteadyStateErrorToler): one recurrence per variable through two target values
@@ -29,7 +34,10 @@ replay: for every behaviour a REAL equation system is generated that realises th
         copy gives), the installed k=0 values and, if the search
         returned, ONE further real SolveStep(1) on a deep copy of the initialised solver with the user's
         exogenous inputs frozen at their k=0 values, giving the change D of every series.
-trace:  the recorded executions are judged by TLC against Steady_Trace (same operators).
+        The variables carry the names of the behaviour, the lag of v is LAG_v, the option is handed to the solver
+        exactly as the behaviour has it.
+trace:  the recorded executions are judged by TLC against Steady_Trace (same operators); which series the
+        loop must skip is computed there from the names and the option, not by this driver.
 
 Readings (the weaker one where the statement leaves a choice):
 * a series is steady after the further step iff  |D| <= tol*max(|v|, |v+D|)  ("relative": relative to the
@@ -322,15 +330,14 @@ def build_case(beh, seed, tier):
     (T, tol) realises all requested classes.  Every behaviour has its own generator, seeded by the run's
     seed and the behaviour itself (so neither TLC's output order nor parallel execution matters)."""
     rng = random.Random('%d:%s' % (seed, core.canonical(beh)))
-    n = beh['n']
-    names = ['x%d' % (i + 1) for i in range(n)]
+    names = [''.join(nm) for nm in beh['names']]
+    option = sorted(''.join(nm) for nm in beh['option'])       # ParameterInitialSteadyStateExcludedVariables
     max_time = rng.choice([3, 5, 10])
     if tier == 'quick':
         T = rng.choice(HORIZONS_QUICK)
     else:
         T = rng.choice([rng.choice(HORIZONS_QUICK), rng.randint(5, 200), rng.randint(31, 200)])
     reduction = rng.random() < 0.7
-    excluded_idx = sorted(beh['excluded'])
     base = {'behaviour': beh, 'T': T, 'max_time': max_time, 'wf': bool(beh['wf']), 'want': beh['runres']}
     if beh['runres'] != 'ok':
         tol = rng.choice(TOLS)
@@ -343,18 +350,15 @@ def build_case(beh, seed, tier):
         else:
             parts.append({'endo': ['w = 0.5*LAG_w + undefined_name', 'LAG_w = w(k-1)'], 'init': [], 'exo': []})
             reduction = False
-        excl = ['t']
-        for i in excluded_idx:
-            excl += [names[i - 1], 'LAG_' + names[i - 1]]
-        base.update(tol=tol, text=assemble(parts, max_time), excluded=excl, reduction=reduction, gen={}, recipes=[])
+        base.update(tol=tol, text=assemble(parts, max_time), excluded=option, reduction=reduction, gen={}, recipes=[])
         return base
     tols = list(TOLS)
     rng.shuffle(tols)
     for tol in tols:
-        parts, gen, recipes, excl = [], {}, [], ['t']
+        parts, gen, recipes = [], {}, []
         ok = True
         for i, v in enumerate(names):
-            is_ex = (i + 1) in excluded_idx
+            is_ex = v in option and ('LAG_' + v) in option      # on the list together with its lag
             r = realise(v, beh['cls'][i], T, tol, rng, allow_trend=is_ex, max_time=max_time)
             if r is None:
                 ok = False
@@ -362,12 +366,10 @@ def build_case(beh, seed, tier):
             parts.append(r)
             gen[v] = beh['cls'][i]
             recipes.append(r['recipe'])
-            if is_ex:
-                excl += r['series']
-            elif r['recipe'] != 'exo' and rng.random() < 0.25:
+            if not is_ex and r['recipe'] != 'exo' and rng.random() < 0.25:
                 parts.append({'endo': ['d_%s = 1.0*%s' % (v, v)], 'init': [], 'exo': []})     # decorative copy
         if ok:
-            base.update(tol=tol, text=assemble(parts, max_time), excluded=excl, reduction=reduction, gen=gen,
+            base.update(tol=tol, text=assemble(parts, max_time), excluded=option, reduction=reduction, gen=gen,
                         recipes=recipes)
             return base
     return None
@@ -391,7 +393,8 @@ def canonical_cases(tier):
         for T, tol in grid:
             sp, sq, sn = simulate(rhs, x0, T, 'LAG_x1')
             cls = classify(sp, sq, tol, sn)
-            beh = {'n': 1, 'excluded': [], 'wf': True, 'runres': 'ok', 'cls': [cls], 'canonical': True}
+            beh = {'n': 1, 'names': [['x', '1']], 'option': [['t']], 'excluded': [], 'wf': True, 'runres': 'ok',
+                   'cls': [cls], 'canonical': True}
             text = 'x1 = %s\nLAG_x1 = x1(k-1)\nx1(0) = %s\nexogenous\nMaxTime = 5\n' % (rhs, num(x0))
             out.append({'behaviour': beh, 'T': T, 'max_time': 5, 'wf': True, 'want': 'ok', 'tol': tol, 'text': text,
                         'excluded': ['t'], 'reduction': True, 'gen': {'x1': cls}, 'recipes': ['canonical']})
@@ -524,7 +527,8 @@ def execute(case):
         except Exception as e:
             further_ok = False
             obs['further_exc'] = type(e).__name__
-    events = [{'ev': 'Begin', 'n': len(names), 'excluded': idx_excl, 'wf': case['wf'], 'names': names,
+    events = [{'ev': 'Begin', 'n': len(names), 'names': [list(v) for v in names],
+               'option': [list(v) for v in case['excluded']], 'listed': idx_excl, 'wf': case['wf'],
                'T': T, 'toltext': num(tol)}]
     cs = obs.get('copy_same', final_same)
     events.append(dict({'ev': 'Copy', 'deep': bool(obs.get('deep', False))}, **cs))
@@ -565,6 +569,14 @@ def signature(clause, case, events):
         out = [e for e in events if e['ev'] == 'Outcome'][0]
         return 'search-raises:' + (out['exc'].split(':')[0] or 'unknown')
     if clause == 'C15_AcceptedIsSteady':
+        begin = events[0]
+        opt = [''.join(o) for o in begin['option']] + ['k']
+        for e in events:
+            if e['ev'] == 'Judge' and not e['excl'] and not e['inst']:
+                inside = [o for o in opt if e['name'] in o]
+                if inside:
+                    return 'exclusion:series-whose-name-occurs-inside-an-excluded-name-is-skipped-not-installed'
+                return 'exclusion:non-excluded-series-not-installed'
         # name the cause: among the non-excluded series of the accepted system, the class whose acceptance is
         # least defensible (a system is accepted only if every series passes, so one such series is the cause)
         run = [e for e in events if e['ev'] == 'Run'][0]
@@ -664,7 +676,7 @@ INSTANCES = {
 
 def run(rep):
     rep.rule = ('behaviours = all maximal histories of the bounded Steady instances emitted by TLC (number of '
-                'variables, excluded set, well-formedness, outcome of the run, grid class of every variable, then '
+                'variables and their names, exclusion option, well-formedness, outcome of the run, grid class of every variable, then '
                 'Judge per variable and Install / Reject / Raise); each is realised by one seeded real equation '
                 'system (recurrence family, targets inside the class, horizon T, tolerance, reduction on/off, '
                 'optional decorative copy / exogenous input) plus the canonical systems of the property text; '
